@@ -16,7 +16,7 @@
 use crate::{ctl::Ctl, exec};
 use futures::channel::oneshot;
 use reactive_graph::{
-    computed::{ArcAsyncDerived, Memo},
+    computed::{ArcAsyncDerived, ArcMemo, Memo},
     effect::Effect,
     owner::Owner,
     signal::{ArcRwSignal, RwSignal},
@@ -323,4 +323,65 @@ pub fn run_dispose(case: &Sexp) -> Sexp {
     let e = ended.load(SeqCst) as i64;
     ctl.finish();
     Lst(vec![Num(e), Num(hang as i64)])
+}
+
+/// (32 progs sched)  memo -> memo chain across threads: s (1) -> m1 = s * 10 -> m2 = m1 + 1; ops as in
+/// scenario 3, a pull reads m2 (Check propagation through `mark_check`, the Check branch of
+/// `needs_update`, nested recomputation).   obs (final_s final_m2 (status ...) hang)
+pub fn run_memo_chain(case: &Sexp) -> Sexp {
+    let progs: Vec<Vec<Vec<i64>>> =
+        case.at(1).list().iter().map(|p| p.list().iter().map(|o| o.nums()).collect()).collect();
+    let sched = case.at(2).nums();
+    let n = progs.len();
+    let owner = Owner::new();
+    owner.set();
+    let s = ArcRwSignal::new(1i64);
+    let m1 = ArcMemo::new({
+        let s = s.clone();
+        move |_| s.get() * 10
+    });
+    let m2 = ArcMemo::new({
+        let m1 = m1.clone();
+        move |_| m1.get() + 1
+    });
+    assert_eq!(m2.get_untracked(), 11);
+    let ctl = Ctl::new(
+        n,
+        &["write:unlocked", "signal:mark_sub", "memo:marked_dirty", "memo:mark_sub", "memo:needs_update", "memo:computed"],
+    );
+    for (j, prog) in progs.iter().enumerate() {
+        let s = s.clone();
+        let m2 = m2.clone();
+        let prog = prog.clone();
+        ctl.spawn(j, move |ctl, me| {
+            for (i, op) in prog.iter().enumerate() {
+                if i > 0 {
+                    ctl.pause(me, "op");
+                }
+                match op[0] {
+                    0 => s.set(op[1]),
+                    1 => s.update(|x| *x += op[1]),
+                    _ => {
+                        let _ = m2.get_untracked();
+                    }
+                }
+            }
+        });
+    }
+    ctl.wait_started();
+    for t in &sched {
+        ctl.step(*t as usize);
+    }
+    let blocked = ctl.settle();
+    let st: Vec<Sexp> = (0..n).map(|i| Num(ctl.status(i, &blocked))).collect();
+    let hang = ctl.hang.load(SeqCst) || blocked.iter().any(|b| *b);
+    let all_done = (0..n).all(|i| ctl.status(i, &blocked) == 1);
+    ctl.finish();
+    let fin_s = s.get_untracked();
+    let fin_m = if all_done {
+        std::panic::catch_unwind(std::panic::AssertUnwindSafe(|| m2.get_untracked())).unwrap_or(-999)
+    } else {
+        -998
+    };
+    Lst(vec![Num(fin_s), Num(fin_m), Lst(st), Num(hang as i64)])
 }
